@@ -220,3 +220,32 @@ Proof.
   intros l1 l2 HP Hnd.
   apply (sort_by_perm edge_ltb (fun e => (eu e, ev e)) edge_ltb_trans edge_ltb_asym edge_ltb_total); assumption.
 Qed.
+
+(* ---- the hypotheses are satisfiable: small evaluated instances ---- *)
+Example louvain_model_runs :
+  match new_from_nodes_and_edges Z.eqb Z.ltb
+          [mknode 3%Z (None : option Z); mknode 1%Z None; mknode 2%Z None]
+          [mkedge 3%Z 1%Z None None; mkedge 1%Z 2%Z None None]
+          (mkspecs false DErr MCreate false true SErr) with
+  | Ok g =>
+    louvain_partitions Z.eqb Z.ltb 10 50 g false 1 (1 # 10000000) [[0]; [1; 0]; [2; 0; 1]]%nat
+    = Ok [[[1; 2; 3]]]%Z /\
+    louvain_communities Z.eqb Z.ltb 10 50 g false 1 (1 # 10000000) [[0]; [1; 0]; [2; 0; 1]]%nat
+    = Ok [[1; 2; 3]]%Z
+  | _ => False
+  end.
+Proof. vm_compute. split; reflexivity. Qed.
+
+Example sort_candidates_nonvacuous :
+  Permutation [(2%nat, 1%Q); (1%nat, 1%Q); (0%nat, 1%Q)] [(0%nat, 1%Q); (2%nat, 1%Q); (1%nat, 1%Q)] /\
+  NoDup (map fst [(2%nat, 1%Q); (1%nat, 1%Q); (0%nat, 1%Q)]) /\
+  sort_candidates 1 [(2%nat, 1%Q); (1%nat, 1%Q); (0%nat, 1%Q)] = [(1%nat, 1%Q); (0%nat, 1%Q); (2%nat, 1%Q)] /\
+  sort_candidates 1 [(0%nat, 1%Q); (2%nat, 1%Q); (1%nat, 1%Q)] = [(1%nat, 1%Q); (0%nat, 1%Q); (2%nat, 1%Q)].
+Proof.
+  split.
+  { apply Permutation_trans with [(2%nat, 1%Q); (0%nat, 1%Q); (1%nat, 1%Q)].
+    - constructor. apply perm_swap.
+    - apply perm_swap. }
+  split; [repeat constructor; cbn; intuition discriminate|].
+  split; vm_compute; reflexivity.
+Qed.
